@@ -2,7 +2,10 @@
 
 package matcher
 
-import "bytes"
+import (
+	"bytes"
+	"regexp"
+)
 
 // spec: the documented conjunction, written independently (no regex here)
 func verifSpecLiteral(name, prefix, notPrefix, sub, notSub []byte) bool {
@@ -48,4 +51,37 @@ func VerifC03Literal() {
 	want := verifSpecLiteral(name, []byte(prefix), []byte(notPrefix), []byte(sub), []byte(notSub))
 	verifAssert(got == want, "match-equals-spec")
 	verifCover("end")
+}
+
+// VerifC03Regex: Match == spec for the concrete regex / notRegex given as parameters, with the
+// literal options symbolic too. The spec side calls the regexp library without any shortcut.
+func VerifC03Regex() {
+	nl := verifChoice("namelen", 7)
+	name := verifBytes("name", nl)
+	for _, b := range name {
+		verifAssume(b < 0x80)
+	}
+	regex := verifParam("regex")
+	notRegex := verifParam("notRegex")
+	prefix := verifString("prefix", verifChoice("plen", 2))
+	notSub := verifString("notSub", verifChoice("nslen", 2))
+	m, err := New(prefix, "", "", notSub, regex, notRegex)
+	if err != nil {
+		verifCover("compile-error")
+		return
+	}
+	got := m.Match(name)
+	want := verifSpecLiteral(name, []byte(prefix), nil, nil, []byte(notSub))
+	if regex != "" {
+		want = want && verifRegexSpec(regex, name)
+	}
+	if notRegex != "" {
+		want = want && !verifRegexSpec(notRegex, name)
+	}
+	verifAssert(got == want, "match-equals-spec")
+	verifCover("end")
+}
+
+func verifRegexSpec(pat string, name []byte) bool {
+	return regexp.MustCompile(pat).Match(name)
 }
